@@ -491,7 +491,7 @@ func TestVerif_C35(t *testing.T) {
 	if VerifC35Real != nil {
 		defer VerifC35Real(t, r)
 	}
-	maxLen := vh.Pick(r, 4, 5)
+	maxLen := vh.Pick(r, 4, 6)
 	r.Rule(fmt.Sprintf("all inner-backend answer sequences of length <= %d per operation (Save/Load/List/Stat/Remove) x tail {all-ok, all-fail} x HasFlakyErrors x HasAtomicReplace (Save) x budget {10ns, 15m} through the real retry.Backend on virtual time; non-trivial = the operation was attempted more than once (a retry or a wrongly repeated permanent error happened)", maxLen))
 	r.Assume("the cleanup Remove issued by a failed Save succeeds", "a backend with atomic replace never exposes a partial file", "back-off jitter only influences the number of attempts in the all-fail tail, which the oracle ignores")
 
